@@ -32,6 +32,29 @@ func init() {
 					if h.calleeName(in) == "go/ast.Inspect" && len(in.Args) == 2 {
 						if v := h.varOf(in.Args[0]); v != nil && h.isParam(v) {
 							whole = true
+							// the walk goes on while nothing was found: the callback returns true, or the negation of its found flag
+							if lit, ok := ast.Unparen(h.deref(in.Args[1])).(*ast.FuncLit); ok {
+								ast.Inspect(lit.Body, func(m ast.Node) bool {
+									if inner, isLit := m.(*ast.FuncLit); isLit && inner != lit {
+										return false
+									}
+									ret, ok := m.(*ast.ReturnStmt)
+									if !ok || len(ret.Results) != 1 {
+										return true
+									}
+									e := ast.Unparen(ret.Results[0])
+									if id, isId := e.(*ast.Ident); isId && id.Name == "true" {
+										return true
+									}
+									if u, isU := e.(*ast.UnaryExpr); isU && u.Op == token.NOT {
+										if fv := h.varOf(u.X); fv != nil && h.isFlag(fv, false) {
+											return true
+										}
+									}
+									whole = false
+									return true
+								})
+							}
 						}
 					}
 					if h.calleeName(in) == pathW+".isWireImport" {
@@ -776,6 +799,103 @@ func init() {
 				}
 				r.Check(okLen && okFlag && okRet, "sameTypeKeys/definition", st.Decl.Pos(), "false when the sizes differ; otherwise a flag that starts true, is cleared for a key of the one map missing in the other, and is the result")
 			}
+			npop := 0
+			// (8) a pop is a read of the last element AND a cut by one, in the same block; the node that waits for its
+			// dependencies is itself put back; a set taken from the imports work list is marked before it is expanded
+			fi.inspect(fi.Decl.Body, func(nd ast.Node) bool {
+				as, ok := nd.(*ast.AssignStmt)
+				if !ok || len(as.Lhs) != 1 || len(as.Rhs) != 1 || as.Tok != token.DEFINE {
+					return true
+				}
+				ix, ok := ast.Unparen(as.Rhs[0]).(*ast.IndexExpr)
+				if !ok {
+					return true
+				}
+				sv := fi.varOf(ix.X)
+				if sv == nil {
+					return true
+				}
+				if _, isSlice := sv.Type().Underlying().(*types.Slice); !isSlice {
+					return true
+				}
+				if be, ok := ast.Unparen(ix.Index).(*ast.BinaryExpr); !ok || be.Op != token.SUB {
+					return true
+				}
+				popped := fi.varOf(as.Lhs[0])
+				// the cut follows in the same statement list
+				cut := false
+				var list []ast.Stmt
+				switch p := fi.parent[as].(type) {
+				case *ast.BlockStmt:
+					list = p.List
+				case *ast.CaseClause:
+					list = p.Body
+				}
+				after := false
+				for _, st := range list {
+					if st == ast.Stmt(as) {
+						after = true
+						continue
+					}
+					if a2, ok := st.(*ast.AssignStmt); ok && after && len(a2.Lhs) == 1 && len(a2.Rhs) == 1 && fi.varOf(a2.Lhs[0]) == sv {
+						if sl, ok := ast.Unparen(a2.Rhs[0]).(*ast.SliceExpr); ok && fi.varOf(sl.X) == sv && sl.Low == nil && sl.High != nil {
+							cut = true
+						}
+					}
+				}
+				npop++
+				r.Check(cut, "pop-cuts#"+itoa(npop), as.Pos(), "the element taken from the work list is also removed from it")
+				if popped == nil {
+					return true
+				}
+				loop := fi.enclosingLoop(as)
+				if loop == nil {
+					return true
+				}
+				switch types.TypeString(sv.Type(), nil) {
+				case "[]go/types.Type":
+					// the grouping stack: under the not-all-present flag the popped node itself is pushed back
+					back := false
+					fi.inspect(loop, func(m ast.Node) bool {
+						a3, ok := m.(*ast.AssignStmt)
+						if !ok || len(a3.Lhs) != 1 || len(a3.Rhs) != 1 || fi.varOf(a3.Lhs[0]) != sv {
+							return true
+						}
+						if ap := fi.isBuiltin(a3.Rhs[0], "append"); ap != nil {
+							underFlag := false
+							for _, g := range fi.Guards(a3) {
+								if flag != nil && fi.varOf(g.Expr) == flag && g.Neg {
+									underFlag = true
+								}
+							}
+							for _, e := range ap.Args[1:] {
+								if fi.varOf(e) == popped && underFlag {
+									back = true
+								}
+							}
+						}
+						return true
+					})
+					r.Check(back, "requeues-the-node#"+itoa(npop), as.Pos(), "a node whose dependencies are not all present is pushed back itself")
+				default:
+					// the imports work list: the popped set is recorded in the visited map before its imports are pushed
+					marked := false
+					fi.inspect(loop, func(m ast.Node) bool {
+						a3, ok := m.(*ast.AssignStmt)
+						if !ok || len(a3.Lhs) != 1 {
+							return true
+						}
+						if ix3, ok := ast.Unparen(a3.Lhs[0]).(*ast.IndexExpr); ok && fi.varOf(ix3.Index) == popped {
+							if _, isMap := fi.Info.TypeOf(ix3.X).Underlying().(*types.Map); isMap {
+								marked = true
+							}
+						}
+						return true
+					})
+					r.Check(marked, "marks-visited#"+itoa(npop), as.Pos(), "a set taken from the work list is recorded as visited")
+				}
+				return true
+			})
 			// (7) a node that already has an entry is not handled again: every entry made for the popped node is
 			// dominated by the test that it has none yet
 			handled := 0
